@@ -15,7 +15,7 @@ def run(ctx):
             R.violation("ANCHOR", "missing|" + e, "anchor function %s not found" % e, kind="ANCHOR-MISSING")
             return
     reach, n = lib_call.check_streaming(ctx, ENTRIES, ALLOW, defer_complete=True)
-    R.floor("CALL-S", 40)
+    R.floor("CALL-S", 8)  # anti-vacuity only: hand-written fixed-width reads may replace most nom primitives
     complete_prims(ctx)
     try:
         from rules import lib_incomplete
